@@ -47,6 +47,16 @@ inline void noteRead(uint64_t v) {
     h ^= v + 0x9E3779B97F4A7C15ULL + (h << 6) + (h >> 2);
 }
 
+/** The current fiber declares that its local state is now a function of the shared state alone (e.g. it has just returned from a blocking
+ *  wait at the head of its message loop): step counter and read history restart, so that executions reaching the same protocol state by
+ *  different histories are merged. Everything the fiber learns afterwards must be announced with noteRead(). */
+inline void resetLocal(uint64_t tag = 0) {
+    Sched* s = Sched::inst();
+    if (!s || s->current < 0) return;
+    Fiber& f = s->fibers[(size_t)s->current];
+    f.points = 0; f.readHash = 1469598103934665603ULL ^ (tag * 0x9E3779B97F4A7C15ULL);
+}
+
 struct Explorer {
     unsigned long long schedules = 0, pruned = 0, states = 0, transitions = 0, maxPoints = 0;
     std::unordered_set<std::string> seen;
@@ -55,6 +65,9 @@ struct Explorer {
     std::function<std::string()> sharedState;
     std::function<void(const std::vector<int>&)> atEnd;
     size_t maxSchedules = 0; bool capped = false;
+    std::function<bool(int)> enabled;                          // optional: fiber i can run now (blocking waits); default: every unfinished fiber
+    std::function<void(const std::vector<int>&)> onDeadlock;   // unfinished fibers exist but none is enabled
+    unsigned long long deadlocks = 0;
     std::function<bool()> stop;   // polled now and then: a deadline ends the exploration as "capped" (reported, never called exhaustive)
 
     /** Run one execution following `prefix`, then always the lowest runnable fiber; returns the list of (runnable sets) and choices made. */
@@ -73,8 +86,9 @@ struct Explorer {
         choices.clear(); enabledAt.clear(); keys.clear();
         while (true) {
             std::vector<int> en;
-            for (size_t i = 0; i < s.fibers.size(); i++) if (!s.fibers[i].done) en.push_back((int)i);
-            if (en.empty()) break;
+            bool unfinished = false;
+            for (size_t i = 0; i < s.fibers.size(); i++) if (!s.fibers[i].done) { unfinished = true; if (!enabled || enabled((int)i)) en.push_back((int)i); }
+            if (en.empty()) { if (unfinished) { deadlocks++; if (onDeadlock) onDeadlock(choices); } break; }
             // state key before the step: shared words + per-fiber (done, number of points passed, hash of everything it read)
             std::string key = sharedState();
             for (auto& f : s.fibers) { char b[40]; snprintf(b, sizeof b, "|%d:%d:%016llx", (int)f.done, f.points, (unsigned long long)f.readHash); key += b; }
